@@ -1,4 +1,6 @@
 """C09 — overlap_add.list and the stft wrapper.  Tie: small exhaustive grid + random + malformed stream
++ window OBJECTS of every kind the model knows (the resolution rule "callable and not a Stream => wnd(size)" is
+the Lean model's, the tie only builds real objects) + call shapes / spellings / the default strategy
 + histories (several calls sharing argument objects: no argument is modified, no state between calls).
 
 Only `overlap_add.list` can be tied: `overlap_add.numpy` (the default strategy) needs numpy, which the
@@ -10,7 +12,17 @@ from fractions import Fraction as F
 
 ID = "C09"
 RULE = ("grid (size<=6 x hop<=size x m<=4 x normalise x window kind) + random (size<=8, m<=5, four window "
-        "kinds + tuple/Stream/empty, int/Fraction/float samples) + malformed stream (wrong block or window "
+        "kinds + tuple/Stream/empty, int/Fraction/float samples) + window objects (22 kinds of REAL Python objects: list, tuple, "
+        "generator, list iterator, range, deque, dict, user class with __iter__ only; Stream, thub, Stream subclass; def function, "
+        "lambda, functools.partial, bound method, class used as factory, StrategyDict strategy (own and window.hann/hamming/...), user "
+        "class with __call__ only; the StrategyDict objects `window` / `wsymm` themselves and an own StrategyDict, user class with "
+        "__call__ AND __iter__ (iteration gives other numbers or parameter tuples), list subclass with __call__; a number; the call "
+        "returning list / tuple / generator / Stream / deque / None / a number, of the right or a wrong length, from a table by size) as "
+        "wnd of overlap_add.list and as wnd / ola_wnd of the stft wrapper in its three calling styles; call shapes of overlap_add.list "
+        "(keywords, all positional, size/hop positional + keywords, omitted = defaults), normalize spelled True/1/2/Fraction/float/str/"
+        "list and False/0/None/0.0/''/[] , blocks as lists / iterator / Stream / tuples / deques / generators, the default and numpy "
+        "strategies (numpy absent: ImportError first); ola_size / ola_hop / ola_wnd / ola_normalize given or left to their defaults, "
+        "ola_ option names starting with o, l, a, _ after the prefix + malformed stream (wrong block or window "
         "length, non-iterable window, hop>size, hop=0, size detection on no block) + histories (1-6 calls of "
         "overlap_add.list / the stft wrapper sharing argument objects: one window list / tuple, one memoised window "
         "callable returning the same list object, one list of block objects, one signal list, one kwargs dict, one "
@@ -21,6 +33,13 @@ RULE = ("grid (size<=6 x hop<=size x m<=4 x normalise x window kind) + random (s
         "non-trivial = no error, at least one block and one output sample (history: one call with output and one "
         "object used twice); distinct = distinct JSON case")
 TRUSTED = [
+    "window objects: the harness builds a real Python object from (kind, what the call returns by size, what iteration gives) "
+    "(harness/props/c09.py:_build_wobj) and sends exactly that description to the driver; whether the object is called or iterated is "
+    "decided by ALV.C09.callStep from ALV.C09.WKind.caps, and that table is compared with callable() / isinstance(., Iterable) / "
+    "isinstance(., Stream) of the real objects on every run (extra_checks window-kind-table-*); trusted: that _build_wobj builds "
+    "an object that behaves as described (its __call__ returns the table row, its __iter__ the data)",
+    "window objects whose ITERATION gives things that are not numbers and that are not callable (a list of strings, a dict of "
+    "tuples) are modelled as the error window-items but never drawn (the precise exception depends on the first arithmetic)",
     "the Lean model / spec is a pure function of the request of one call: `ALV.Driver.C09.handle \"hist\"` answers every call "
     "of a history by `handleCall` on that call's own request, so 'the result depends only on the call's own argument values' "
     "holds for the model by construction (nothing to prove); that the REAL code has no state between calls and leaves its "
@@ -47,7 +66,10 @@ MANIFEST = {
             "slice-assignment loop, flush, size checks) and of the stft wrapper (keyword merge and routing, blk_gen, run), for all "
             "block counts / sizes / hops / windows / keyword dictionaries; tied to /repo by a differential run (impl vs model vs spec) "
             "on every check",
-    "note": "overlap_add.numpy cannot be run here (no numpy) and is not tied; Python slice assignment, map() consumption and the "
+    "note": "the window argument is a Python OBJECT in the model (callable / iterable / Stream predicates, call result, iteration "
+            "result; 22 kinds, table checked against real objects) and the binding of ola_params to the strategy's signature with its "
+            "defaults is a model function with theorems; overlap_add.numpy cannot be run here (no numpy) and is tied only as far as "
+            "'imports numpy first'; Python slice assignment, map() consumption and the "
             "generator protocol are modelled, not verified; floats injected by the impl (mem=[0.]*size, 1/ceil) are compared exactly "
             "on dyadic inputs and with relative tolerance 1e-9 otherwise; known defect D7 recorded in known_findings/C09.json",
     "technique": "Lean 4 machine-checked proof over an executable model + differential correspondence with spies in three calling styles "
@@ -123,6 +145,12 @@ def _regime(c):
             tab = dict((n, l) for n, l in w["table"])
             l = tab.get(size, w.get("default"))
             wl = [dec(x) for x in l] if l is not None else None
+        if w is not None and w.get("kind") == "obj":
+            # a window OBJECT: which of its numbers are used is the model's business; exact only when
+            # every number it could contribute is a small dyadic rational and nothing is divided
+            if c["normalize"] or not all(_is_dyadic(dec(x)) for x in _wobj_nums(w)):
+                return "float"
+            return "exact"
         if wl is not None and not all(_is_dyadic(v) for v in wl):
             return "float"
         if c["normalize"] and hop >= 1 and size >= 1:
@@ -139,6 +167,223 @@ def _regime(c):
         return "float"
 
 
+
+# ----------------------------------------------------------------------------------------------
+# window OBJECTS: real Python objects of every kind of `ALV.C09.WKind` (lean/ALV/Model/C09Wnd.lean).
+# The case says what calling the object with a size returns (`call`: a table by size and a default)
+# and what iterating over it gives (`iter`); WHICH of the two the code has to use is decided by the
+# Lean model (`WKind.caps` + `callStep`), never here.
+#   {"kind": "obj", "wk": <WKind name>, "variant": …, "ret": "list"|"tuple"|"gen"|"stream"|"deque",
+#    "call": {"table": [[n, res], …], "default": res} | None, "iter": res | None}
+#   res = {"r": "nums", "w": […]} | {"r": "opaque", "n": k} | {"r": "none"} | {"r": "other"}
+# ----------------------------------------------------------------------------------------------
+WK_DATA = ["list", "tuple", "generator", "list_iterator", "range", "deque", "dict", "user_iter_only"]
+WK_STREAM = ["stream", "thub", "stream_subclass"]
+WK_CALL = ["function", "lambda", "partial", "bound_method", "class", "strategy", "user_call_only"]
+WK_BOTH = ["strategy_dict", "user_both", "callable_list"]
+WK_ALL = WK_DATA + WK_STREAM + WK_CALL + WK_BOTH + ["scalar"]
+WK_REUSABLE = ["list", "tuple", "range", "deque", "dict", "user_iter_only", "function", "lambda", "partial",
+               "bound_method", "class", "strategy", "user_call_only", "strategy_dict", "user_both", "callable_list"]
+REAL_STRATEGIES = ["hann", "hamming", "triangular", "bartlett", "blackman", "rectangular"]
+
+
+def _wobj_nums(w):
+    out = []
+    if w.get("call"):
+        for _, r in w["call"]["table"]:
+            out += r.get("w", [])
+        out += w["call"]["default"].get("w", [])
+    if w.get("iter"):
+        out += w["iter"].get("w", [])
+    return out
+
+
+def _real_window(name, n):
+    """the values of a window of the library under test (C14 is about them; here they are just numbers)"""
+    import audiolazy
+    f = audiolazy.window if name == "window" else audiolazy.wsymm if name == "wsymm" else audiolazy.window[name]
+    return [enc(x) for x in f(n)]
+
+
+def _mk_wobj(rng, wk, size, hop, num, wsize=None, ret_bad=None):
+    """a window object of kind `wk` for blocks of `size` items"""
+    wsize = size if wsize is None else wsize
+    d = wsize - size
+    sizes = sorted({size, hop, max(size - 1, 1), size + 1} - {0})
+    w = {"kind": "obj", "wk": wk, "variant": "user", "ret": "list", "call": None, "iter": None}
+    callable_ = wk in WK_CALL + WK_BOTH + WK_STREAM
+    iterable = wk in WK_DATA + WK_STREAM + WK_BOTH
+    if callable_ and wk not in WK_STREAM:
+        real = None
+        if wk == "strategy" and rng.random() < 0.5:
+            real = rng.choice(REAL_STRATEGIES)
+        if wk == "strategy_dict" and rng.random() < 0.6:
+            real = rng.choice(["window", "wsymm"])
+        if real is not None and d == 0 and ret_bad is None:
+            w["variant"] = "real:" + real
+            table = [[n, {"r": "nums", "w": _real_window(real, n)}] for n in sizes]
+            w["call"] = {"table": table, "default": {"r": "other"}}
+        else:
+            table = [[n, {"r": "nums", "w": _rand_wnd(rng, n + d, num)}] for n in sizes if n + d >= 0]
+            dflt = {"r": "other"}
+            if ret_bad is not None and wk != "class":
+                table = [[n, {"r": ret_bad}] for n, _ in table]
+            if wk == "class":
+                dflt = {"r": "nums", "w": []}
+            w["call"] = {"table": table, "default": dflt}
+            w["ret"] = rng.choice(["list", "list", "tuple", "gen", "stream", "deque"]) if wk != "class" else "list"
+    if iterable:
+        if wk == "range":
+            a = rng.randint(-3, 3)
+            w["iter"] = {"r": "nums", "w": list(range(a, a + wsize))}
+        elif wk == "dict":
+            w["iter"] = {"r": "nums", "w": rng.sample(range(-20, 21), min(wsize, 41))}
+        elif wk in WK_BOTH:
+            # what the code must NOT use: other numbers of the right length, or things that are not numbers
+            if w["variant"].startswith("real:"):
+                import audiolazy
+                w["iter"] = {"r": "opaque", "n": len(list(audiolazy.window if w["variant"] == "real:window" else audiolazy.wsymm))}
+            elif wk == "strategy_dict":
+                w["iter"] = {"r": "opaque", "n": 2}
+            elif rng.random() < 0.6:
+                w["iter"] = {"r": "nums", "w": _rand_wnd(rng, size, num)}
+            else:
+                w["iter"] = {"r": "opaque", "n": rng.choice([1, 2, size])}
+        else:
+            w["iter"] = {"r": "nums", "w": _rand_wnd(rng, wsize, num)}
+    return w
+
+
+def _res_py(res, num, ret="list"):
+    """the Python value a window call returns / an iteration yields from"""
+    from audiolazy import Stream
+    from collections import deque
+    r = res["r"]
+    if r == "none":
+        return None
+    if r == "other":
+        return 3
+    if r == "opaque":
+        return [("ramp", i) for i in range(res["n"])]
+    l = [_py(x, num) for x in res["w"]]
+    if ret == "tuple":
+        return tuple(l)
+    if ret == "gen":
+        return (x for x in l)
+    if ret == "stream":
+        return Stream(l)
+    if ret == "deque":
+        return deque(l)
+    return l
+
+
+def _build_wobj(w, num):
+    """the REAL Python object described by a window-object spec"""
+    import functools
+    import audiolazy
+    from audiolazy import Stream, thub, StrategyDict
+    from collections import deque
+    wk, variant, ret = w["wk"], w.get("variant", "user"), w.get("ret", "list")
+    if variant.startswith("real:"):
+        name = variant[5:]
+        return audiolazy.window if name == "window" else audiolazy.wsymm if name == "wsymm" else audiolazy.window[name]
+    tab = dict((n, r) for n, r in w["call"]["table"]) if w.get("call") else {}
+    dflt = w["call"]["default"] if w.get("call") else {"r": "other"}
+
+    def call(n):
+        return _res_py(tab.get(n, dflt), num, ret)
+    itl = _res_py(w["iter"], num) if w.get("iter") else []
+    if wk in ("range", "dict"):
+        itl = [int(dec(x)) for x in w["iter"]["w"]]      # ints whatever the number kind of the samples
+    if wk == "list":
+        return list(itl)
+    if wk == "tuple":
+        return tuple(itl)
+    if wk == "generator":
+        return (x for x in itl)
+    if wk == "list_iterator":
+        return iter(list(itl))
+    if wk == "range":
+        return range(itl[0], itl[0] + len(itl)) if itl else range(0)
+    if wk == "deque":
+        return deque(itl)
+    if wk == "dict":
+        return dict.fromkeys(itl)
+    if wk == "user_iter_only":
+        class Samples(object):
+            def __iter__(self):
+                return iter(list(itl))
+        return Samples()
+    if wk == "stream":
+        return Stream(itl)
+    if wk == "thub":
+        import warnings
+        from audiolazy.lazy_stream import MemoryLeakWarning
+        warnings.simplefilter("ignore", MemoryLeakWarning)      # a hub whose copy is never asked for (error before)
+        return thub(itl, 1)
+    if wk == "stream_subclass":
+        class WindowStream(Stream):
+            pass
+        return WindowStream(itl)
+    if wk == "function":
+        def window_function(size):
+            return call(size)
+        return window_function
+    if wk == "lambda":
+        return lambda size: call(size)
+    if wk == "partial":
+        return functools.partial(lambda family, size: call(size), "family")
+    if wk == "bound_method":
+        class Family(object):
+            def make(self, size):
+                return call(size)
+        return Family().make
+    if wk == "class":
+        class WindowList(list):
+            def __init__(self, size):
+                list.__init__(self, call(size))
+        return WindowList
+    if wk == "strategy":
+        sd = StrategyDict("c09_window_family")
+        sd.strategy("plain", "default")(lambda size: call(size))
+        return sd.plain
+    if wk == "user_call_only":
+        class WindowFamily(object):
+            def __call__(self, size):
+                return call(size)
+        return WindowFamily()
+    if wk == "strategy_dict":
+        sd = StrategyDict("c09_window_family")
+        sd.strategy("plain", "default")(lambda size: call(size))
+        sd.strategy("other")(lambda size: [7] * size)
+        return sd
+    if wk == "user_both":
+        class ParamWindow(object):
+            def __call__(self, size):
+                return call(size)
+
+            def __iter__(self):
+                return iter(list(itl))
+        return ParamWindow()
+    if wk == "callable_list":
+        class CallableList(list):
+            def __call__(self, size):
+                return call(size)
+        return CallableList(itl)
+    if wk == "scalar":
+        return 5
+    raise ValueError("window object kind " + wk)
+
+
+def _caps(o):
+    from audiolazy import Stream
+    try:
+        from collections.abc import Iterable
+    except ImportError:
+        from collections import Iterable
+    return {"callable": bool(callable(o)), "iterable": isinstance(o, Iterable), "stream": isinstance(o, Stream)}
+
+
 # ----------------------------------------------------------------------------------------------
 # generation
 # ----------------------------------------------------------------------------------------------
@@ -146,12 +391,31 @@ WKINDS = ["none", "list", "callable", "gen", "tuple", "stream", "callable_gen"]
 ROUTES = ["list", "iter", "stream", "tuples", "deques"]
 
 
+NORM_SPELL = {True: [True, True, 1, 2, "frac:1/2", "float:0.5", "yes", "[0]"], False: [False, False, 0, None, "float:0.0", "", "[]", "frac:0"]}
+
+
+def _spell(v):
+    """the Python value of a spelled keyword value"""
+    if isinstance(v, str):
+        if v.startswith("frac:"):
+            return F(v[5:])
+        if v.startswith("float:"):
+            return float(v[6:])
+        if v == "[0]":
+            return [0]
+        if v == "[]":
+            return []
+    return v
+
+
 def _mk_ola(rng, size, hop, m, normalize, wkind, num, size_given=True, hop_given=True, route="list",
-            wsize=None, blens=None):
+            wsize=None, blens=None, ret_bad=None):
     blens = blens if blens is not None else [size] * m
     blks = [[_rand_val(rng, num) for _ in range(n)] for n in blens]
     wsize = size if wsize is None else wsize
-    if wkind == "none":
+    if wkind.startswith("obj:"):
+        wnd = _mk_wobj(rng, wkind[4:], size, hop, num, wsize=wsize, ret_bad=ret_bad)
+    elif wkind == "none":
         wnd = None
     elif wkind in ("callable", "callable_gen"):
         # a table by size: the code must call wnd(size), not wnd(hop) or wnd(len(first block) + 1)
@@ -170,6 +434,12 @@ def _mk_ola(rng, size, hop, m, normalize, wkind, num, size_given=True, hop_given
          "wkind": wkind, "num": num, "route": route}
     if normalize and rng.random() < 0.5:
         c["normalize_given"] = False          # rely on the default normalize=True
+    elif rng.random() < 0.35:
+        c["norm_spell"] = rng.choice(NORM_SPELL[bool(normalize)])      # truthiness, not `is True`
+    r = rng.random()
+    c["argstyle"] = "kw" if r < 0.6 else "pos" if r < 0.8 else "mixed"
+    if route == "gens" and not size_given:
+        c["route"] = "iter"                   # len() of a generator block: outside (TypeError)
     c["regime"] = _regime(c)
     return c
 
@@ -248,6 +518,34 @@ def generate(rng, tier, scale=1):
         size_given = rng.random() < 0.6 or m == 0
         cases.append(_mk_ola(rng, size, hop, m, rng.random() < 0.6, wkind, num, size_given=size_given,
                              hop_given=(hop != size) or rng.random() < 0.5, route=rng.choice(ROUTES)))
+    # --- window OBJECTS of every kind (the resolution rule is the model's) ----------------------------
+    nobj = (24 if quick else 400) * scale
+    j = 0
+    for rep in range(nobj):
+        for wk in WK_ALL:
+            j += 1
+            size = rng.randint(1, 6 if quick else 10)
+            hop = rng.choice([size, max(1, size // 2), rng.randint(1, size)])
+            m = rng.choice([0, 1, 2, 2, 3])
+            num = rng.choice(["int", "frac", "frac", "float"])
+            size_given = rng.random() < 0.6 or m == 0
+            r = rng.random()
+            wsize, ret_bad = None, None
+            if r < 0.08:
+                wsize = max(0, size + rng.choice([-1, 1, -size]))
+            elif r < 0.16 and wk in WK_CALL + WK_BOTH:
+                ret_bad = rng.choice(["none", "other"])
+            cases.append(_mk_ola(rng, size, hop, m, rng.random() < 0.5, "obj:" + wk, num, size_given=size_given,
+                                 hop_given=(hop != size) or rng.random() < 0.5, route=rng.choice(ROUTES + ["gens"]),
+                                 wsize=wsize, ret_bad=ret_bad))
+    # --- the other strategies: `overlap_add(…)` is `overlap_add.numpy(…)` (numpy first, absent here) ----
+    for _ in range((12 if quick else 60) * scale):
+        size = rng.randint(1, 5)
+        c = _mk_ola(rng, size, rng.randint(1, size), rng.randint(0, 3), rng.random() < 0.5,
+                    rng.choice(["none", "list", "obj:strategy_dict", "obj:function"]), "int",
+                    size_given=rng.random() < 0.5)
+        c["strategy"] = rng.choice(["default", "numpy"])
+        cases.append(c)
     # --- malformed / outside the quantifier -----------------------------------------------------
     nbad = (160 if quick else 3000) * scale
     for _ in range(nbad):
@@ -356,7 +654,7 @@ def _mk_stft(rng, kind):
         items.append(["hop", hop if hop is not None else size])
     eff_hop = hop if hop is not None else size
     # analysis window
-    wa = rng.choice(["absent", "none", "list", "callable", "gen", "tuple"])
+    wa = rng.choice(["absent", "none", "list", "callable", "gen", "tuple", "obj", "obj", "obj"])
     if identity:
         wa = rng.choice(["absent", "none", "cola", "ones"])
     if wa == "none":
@@ -369,6 +667,12 @@ def _mk_stft(rng, kind):
         if wa == "callable":
             wnd = {"kind": "callable", "table": [[n, _rand_wnd(rng, n, num)] for n in sorted({size, eff_hop, size + 1})],
                    "default": None}
+        elif wa == "obj":
+            wk = rng.choice(WK_DATA + WK_STREAM + WK_CALL * 2 + WK_BOTH * 4)
+            r = rng.random()
+            wnd = _mk_wobj(rng, wk, size, eff_hop, num, wsize=(size + rng.choice([-1, 1])) if r < 0.06 else None,
+                           ret_bad=rng.choice(["none", "none", "other"]) if 0.06 <= r < 0.24 and wk in WK_CALL + WK_BOTH else None)
+            wa = "obj:" + wk
         else:
             wnd = {"kind": "seq", "w": _rand_wnd(rng, size, num)}
         objs["@wa"] = {"type": "wnd", "wnd": wnd, "wkind": wa}
@@ -423,13 +727,18 @@ def _mk_stft(rng, kind):
         else:
             if rng.random() < 0.6:
                 normalize = rng.random() < 0.5
-                items.append(["ola_normalize", normalize])
-            wk = rng.choice(["absent", "none", "list", "list", "callable", "gen"])
+                items.append(["ola_normalize", rng.choice([normalize, normalize, int(normalize)] + ([None] if not normalize else []))])
+            wk = rng.choice(["absent", "none", "list", "list", "callable", "gen", "obj", "obj", "obj"])
             if wk == "none":
                 items.append(["ola_wnd", None])
             elif wk != "absent":
                 if wk == "callable":
                     wnd = {"kind": "callable", "table": [[n, _rand_wnd(rng, n, num)] for n in sorted({size, eff_hop})], "default": None}
+                elif wk == "obj":
+                    k2 = rng.choice(WK_DATA + WK_STREAM + WK_CALL * 2 + WK_BOTH * 4)
+                    wnd = _mk_wobj(rng, k2, size, eff_hop, num,
+                                   ret_bad=rng.choice(["none", "other"]) if rng.random() < 0.08 and k2 in WK_CALL + WK_BOTH else None)
+                    wk = "obj:" + k2
                 else:
                     wnd = {"kind": "seq", "w": _rand_wnd(rng, size if rng.random() < 0.93 else size + 1, num)}
                 objs["@ws"] = {"type": "wnd", "wnd": wnd, "wkind": wk}
@@ -438,12 +747,17 @@ def _mk_stft(rng, kind):
                     objs["@ws_old"] = {"type": "wnd", "wnd": {"kind": "seq", "w": [1] * size}, "wkind": "list"}
                     overrides.append(["ola_wnd", "@ws_old"])
             r = rng.random()
-            if r < 0.08:
+            if r < 0.10:
                 items.append(["ola_hop", rng.randint(1, size)])
-            elif r < 0.12:
+            elif r < 0.14:
                 items.append(["ola_size", rng.choice([size, size + 1])])
-            elif r < 0.16:
-                items.append(["ola_" + rng.choice(["foo", "ola_wnd", "siz", ""]), rng.randint(0, 3)])
+            elif r < 0.18:
+                items.append(["ola_size", size])
+                items.append(["ola_hop", rng.randint(1, size)])
+            elif r < 0.30:
+                items.append(["ola_" + rng.choice(["foo", "ola_wnd", "siz", "", "latency", "length", "offset", "align", "_x",
+                                                   "ola_", "a", "all", "olaola_hop", "o_l_a", "normalise", "Size", "wnd_"]),
+                              rng.randint(0, 3)])
     if kind == "bad":
         b = rng.choice(["unknown", "unknown2", "no_size", "hop_gt", "hop_none", "ola_none_opt", "wa_size", "wa_scalar", "wa_empty"])
         if b == "unknown":
@@ -486,6 +800,8 @@ def _regime_stft(c):
                 elif w.get("kind") == "callable":
                     for _, l in w["table"]:
                         nums += l
+                elif w.get("kind") == "obj":
+                    nums += _wobj_nums(w)
             elif o["type"] == "fn":
                 nums.append(o.get("arg", 0))
         if not all(_is_dyadic(dec(x), 12) for x in nums):
@@ -519,6 +835,8 @@ def _err_obs(e):
         tag = "max-empty"
     elif "generator raised StopIteration" in msg:
         tag = "generator-raised-StopIteration"
+    elif "numpy" in msg and isinstance(e, ImportError):
+        kind, tag = "ImportError", "numpy-default"
     else:
         tag = "other:" + msg[:60]
     return {"kind": kind, "tag": tag}
@@ -529,6 +847,8 @@ def _py_wnd(c):
     w, wkind, num = c["wnd"], c["wkind"], c["num"]
     if w is None:
         return None
+    if w["kind"] == "obj":
+        return _build_wobj(w, num)
     if w["kind"] == "scalar":
         return 5
     if w["kind"] == "callable":
@@ -566,6 +886,8 @@ def _py_blks(c):
         return [tuple(b) for b in blks]
     if route == "deques":
         return iter([deque(b) for b in blks])
+    if route == "gens":
+        return [(x for x in b) for b in blks]
     return blks
 
 
@@ -724,11 +1046,12 @@ def _impl_stft(c):
     return _stft_exec(_StftEnv(c["objs"], c["num"]), c)
 
 
-def _run_ola(blks, kw):
+def _run_ola(blks, kw, args=(), strategy="list"):
     from audiolazy import overlap_add
     out, err = [], None
     try:
-        for x in overlap_add.list(blks, **kw):
+        f = overlap_add if strategy == "default" else getattr(overlap_add, strategy)
+        for x in f(blks, *args, **kw):
             out.append(x)
     except Exception as e:
         err = _err_obs(e)
@@ -744,6 +1067,10 @@ def impl(c):
     from audiolazy import overlap_add
     if c["entry"] == "ola":
         kw = {"normalize": c["normalize"]} if c.get("normalize_given", True) else {}
+        if "norm_spell" in c and "normalize" in kw:
+            sp = _spell(c["norm_spell"])
+            if bool(sp) == bool(c["normalize"]):       # (a shrunk / neighbour case may have flipped `normalize`)
+                kw["normalize"] = sp
         if c["size"] is not None:
             kw["size"] = c["size"]
         if c["hop"] is not None:
@@ -755,7 +1082,19 @@ def impl(c):
             blks = _py_blks(c)
         except Exception as e:
             return {"out": [], "err": _err_obs(e), "floats": 0}
-        return _run_ola(blks, kw)
+        # call shape: keywords / positional (size, hop, wnd, normalize in the signature's order, `None` for
+        # what is left to its default) / size and hop positional and the rest as keywords
+        args = ()
+        style = c.get("argstyle", "kw")
+        if style == "pos":
+            args = [kw.pop("size", None), kw.pop("hop", None), kw.pop("wnd", None)]
+            if "normalize" in kw:
+                args.append(kw.pop("normalize"))
+        elif style == "mixed":
+            args = [kw.pop("size", None)]
+            if "hop" in kw:
+                args.append(kw.pop("hop"))
+        return _run_ola(blks, kw, tuple(args), c.get("strategy", "list"))
     if c["entry"] == "stft":
         return _impl_stft(c)
     if c["entry"] == "ola_sig":
@@ -787,7 +1126,7 @@ def request(c):
     if c["entry"] == "hist":
         return {"entry": "hist", "calls": [request(sub) for sub in _subcases(c)]}
     r = dict(c)
-    for k in ("wkind", "num", "route", "regime", "kind", "normalize_given"):
+    for k in ("wkind", "num", "route", "regime", "kind", "normalize_given", "norm_spell", "argstyle"):
         r.pop(k, None)
     if c["entry"] == "stft":
         r.pop("style", None)
@@ -905,6 +1244,8 @@ def _compare_one(c, io, drv):
     out = []
     regime = c.get("regime", "float")
     if c["entry"] in ("ola", "ola_sig"):
+        if c.get("strategy", "list") != "list" and _has_numpy():
+            return []       # overlap_add.numpy is not modelled beyond "imports numpy first"
         if "out" not in io:
             return [("model", "impl observation failed: %r" % (io,)), ("spec", "impl observation failed")]
         m = drv["model"]
@@ -953,6 +1294,12 @@ def _tally_stft(eng, c, io):
         merged.update(dict((k, v) for k, v in d))
     eng.count("stft_ola", {None: "None", "@spy": "spy(list)", "@list": "list"}.get(merged.get("ola", "absent"), "default(numpy)"))
     eng.count("stft_wnd", "none" if merged.get("wnd") is None else c["objs"].get(merged["wnd"], {}).get("wkind", "?"))
+    for key in ("wnd", "ola_wnd"):
+        w = (c["objs"].get(merged.get(key)) or {}).get("wnd") if isinstance(merged.get(key), str) else None
+        if w and w.get("kind") == "obj":
+            eng.count("stft_%s_object" % key, "%s/%s" % (w["wk"], w.get("variant")))
+            if w.get("call"):
+                eng.count("stft_%s_object_call_returns" % key, "+".join(sorted({r["r"] for _, r in w["call"]["table"]})) + " as " + w.get("ret", "list"))
     eng.count("stft_steps_used", sum(1 for r in ("before", "transform", "inverse_transform", "after") if isinstance(merged.get(r), str)))
     eng.count("stft_ola_options", sum(1 for k in merged if k.startswith("ola_")))
     eng.count("stft_n_blocks", min(8, sum(1 for t, _, _ in (io.get("trace") or []) if t == c["func"])))
@@ -991,6 +1338,17 @@ def tally(eng, c, io):
                "hop|size" if size % hop == 0 else "hop<size")
         eng.count("hop_vs_size", rel)
     eng.count("window_kind", c["wkind"])
+    if c["wkind"].startswith("obj:"):
+        w = c["wnd"]
+        eng.count("window_object_variant", "%s/%s" % (w["wk"], w.get("variant")))
+        if w.get("call"):
+            rs = sorted({r["r"] for _, r in w["call"]["table"]})
+            eng.count("window_object_call_returns", "+".join(rs) + " as " + w.get("ret", "list"))
+        if w.get("iter") and w.get("call"):
+            eng.count("window_object_callable_and_iterable", "%s: iteration gives %s" % (w["wk"], w["iter"]["r"]))
+    eng.count("ola_call_shape", c.get("argstyle", "kw"))
+    eng.count("ola_strategy", c.get("strategy", "list"))
+    eng.count("normalize_spelling", repr(c["norm_spell"]) if "norm_spell" in c else "bool / default")
     eng.count("normalize", str(c["normalize"]) + ("" if c.get("normalize_given", True) else " (default)"))
     eng.count("size_detected", c["size"] is None)
     eng.count("hop_defaulted", c["hop"] is None)
@@ -1117,6 +1475,20 @@ def _shrink_ola(c):
         tab = dict((n, l) for n, l in c["wnd"]["table"])
         if size in tab:
             yield _relabel(dict(c, wnd={"kind": "seq", "w": tab[size]}, wkind="list"))
+    if c["wnd"] is not None and c["wnd"].get("kind") == "obj" and size is not None:
+        w = c["wnd"]
+        for res in [r for n, r in (w.get("call") or {"table": []})["table"] if n == size] + ([w["iter"]] if w.get("iter") else []):
+            if res["r"] == "nums":      # candidates only: kept when they still fail
+                yield _relabel(dict(c, wnd={"kind": "seq", "w": res["w"]}, wkind="list"))
+        if w.get("call") and len(w["call"]["table"]) > 1:
+            yield _relabel(dict(c, wnd=dict(w, call=dict(w["call"], table=[r for r in w["call"]["table"] if r[0] == size]))))
+        if w.get("ret", "list") != "list":
+            yield _relabel(dict(c, wnd=dict(w, ret="list")))
+    for k in ("argstyle", "norm_spell", "strategy"):
+        if k in c and c[k] not in ("kw", "list"):
+            d = dict(c)
+            d.pop(k)
+            yield _relabel(d)
     if c["wnd"] is not None:
         yield _relabel(dict(c, wnd=None, wkind="none"))
     if c["wnd"] is not None and c["wnd"].get("kind") == "seq":
@@ -1171,6 +1543,8 @@ def neighbours(c):
 def classify(c, io, drv):
     if c["entry"] == "hist":
         return _classify_hist(c, io, drv)
+    if isinstance(io.get("err"), str):
+        return "impl-observation-failed:" + io["err"]
     if c["entry"] == "ola":
         e = io.get("err")
         if e is not None and c["size"] is None and not c["blks"] and e["tag"] == "generator-raised-StopIteration":
@@ -1202,6 +1576,32 @@ def classify(c, io, drv):
     return "unclassified"
 
 
+def extra_checks(eng):
+    """the table of Python object kinds of the model (`ALV.C09.WKind.caps`) against REAL objects: every kind the
+    model knows is built here, every kind built here is known to the model, and `callable(obj)`,
+    `isinstance(obj, Iterable)`, `isinstance(obj, Stream)` are what the table says"""
+    import random as _random
+    from audiolazy import overlap_add
+    table = eng.driver.batch([{"id": ID, "entry": "wkinds"}])[0]
+    table = table.get("ok", table)["kinds"]
+    lean = dict((r["name"], {"callable": r["callable"], "iterable": r["iterable"], "stream": r["stream"]}) for r in table)
+    yield ("window-kind-table-same-kinds", sorted(lean) == sorted(WK_ALL),
+           "model: %r harness: %r" % (sorted(lean), sorted(WK_ALL)))
+    rng = _random.Random(7)
+    bad = []
+    n = 0
+    for wk in WK_ALL:
+        for rep in range(6):
+            w = _mk_wobj(rng, wk, 4, 2, "int")
+            got = _caps(_build_wobj(w, "int"))
+            n += 1
+            if got != lean.get(wk):
+                bad.append((wk, w.get("variant"), got, lean.get(wk)))
+    yield ("window-kind-table-matches-real-objects(%d)" % n, not bad, "kind, variant, real, model: %r" % (bad[:4],))
+    yield ("overlap_add-default-strategy-is-numpy", overlap_add.default is overlap_add.numpy and
+           overlap_add.list is not overlap_add.numpy, "overlap_add.default = %r" % (overlap_add.default,))
+
+
 # ==============================================================================================
 # histories: several calls that SHARE argument objects
 # ==============================================================================================
@@ -1226,7 +1626,7 @@ def classify(c, io, drv):
 # Oracle: every call is sent to the driver as a stand-alone "ola" / "stft" request built from the pristine
 # values in the case (`_subcases`), i.e. the model / spec of that call taken alone.
 
-HIST_WKINDS = ["list", "list", "memo", "memo", "memo", "tuple", "callable"]
+HIST_WKINDS = ["list", "list", "memo", "memo", "memo", "tuple", "callable", "obj", "obj"]
 HIST_ROUTES = ["list", "list", "list", "tuples", "deques", "iter", "stream"]
 
 
@@ -1356,6 +1756,9 @@ def _gc(c):
 def _hist_wnd_obj(rng, sizes, num, wkind=None):
     wkind = wkind or rng.choice(HIST_WKINDS)
     size = sizes[0]
+    if wkind == "obj":
+        wk = rng.choice(WK_REUSABLE + WK_BOTH * 2)
+        return {"type": "wnd", "wkind": "obj:" + wk, "wnd": _mk_wobj(rng, wk, size, sizes[-1], num)}
     if wkind in ("memo", "callable"):
         # a table by size (the code must ask for wnd(size)); every entry has its own values
         wnd = {"kind": "callable", "table": [[n, _rand_wnd(rng, n, num)] for n in sorted(set(sizes))], "default": None}
@@ -1435,7 +1838,11 @@ def _mk_hist_stft(rng, quick=True):
         if o["type"] != "wnd":
             continue
         w = o["wnd"]
-        if w.get("kind") == "callable":
+        if w.get("kind") == "obj" and w["wk"] not in WK_REUSABLE:
+            wk = rng.choice(["list", "tuple", "deque", "user_iter_only"])     # data that is not used up by one call
+            o["wnd"] = dict(w, wk=wk, call=None)
+            o["wkind"] = "obj:" + wk
+        elif w.get("kind") == "callable":
             o["wkind"] = rng.choice(["memo", "memo", "callable"])
         elif w.get("kind") == "seq":
             if w["w"] and rng.random() < 0.4:      # the same values behind a memoised window function
